@@ -25,6 +25,49 @@ theorem only_equal (r : CollapseSequence R I) (v : V) (hi : Inv r) (ha : Accepts
     ∃ r' i, push r v = some (r', i) ∧ ∃ u, index r' i = some u ∧
       (same (R := R) u v ∨ HasEqv.eqv v u = true) :=
   LawfulRegion.push_ok r v hi ha
+
+/-- whatever a push does, the region afterwards remembers exactly the index it just returned -/
+theorem last_tracks (r r' : CollapseSequence R I) (v : V) (i : I) (hi : Inv r)
+    (hp : push r v = some (r', i)) : r'.last = some i := by
+  rcases hit_or_miss r v hi with ⟨li, u, hl, _, _, hpush⟩ | ⟨_, hpush⟩
+  · rw [hpush] at hp
+    simp only [Option.some.injEq, Prod.mk.injEq] at hp
+    obtain ⟨rfl, rfl⟩ := hp
+    exact hl
+  · rw [hpush] at hp
+    cases hq : push r.inner v with
+    | none => simp [hq] at hp
+    | some p =>
+      simp only [hq, Option.map_some, Option.some.injEq, Prod.mk.injEq] at hp
+      obtain ⟨rfl, rfl⟩ := hp
+      rfl
+
+/-- **C11 over two adjacent pushes**: the second of any two consecutive successful pushes is
+collapsed *iff* it is `==` the item the first one's index reads — the decision depends on nothing
+else (not on older items, not on how the first push itself was resolved). Collapsed: same index,
+state literally unchanged. Not collapsed: stored in the inner region under the index returned. -/
+theorem adjacent (r r1 r2 : CollapseSequence R I) (v w : V) (i j : I) (hi : Inv r)
+    (h1 : push r v = some (r1, i)) (h2 : push r1 w = some (r2, j)) :
+    ∃ u, index r1 i = some u ∧
+      ((HasEqv.eqv w u = true ∧ j = i ∧ r2 = r1) ∨
+       (HasEqv.eqv w u = false ∧ push r1.inner w = some (r2.inner, j) ∧ r2.last = some j)) := by
+  have hl := last_tracks r r1 v i hi h1
+  have hi1 := (LawfulRegion.push_inv r r1 v i hi h1).1
+  obtain ⟨u, hu⟩ := LawfulRegion.valid_reads r1.inner i hi1.1 (hi1.2 i hl)
+  refine ⟨u, hu, ?_⟩
+  rcases hit_or_miss r1 w hi1 with ⟨li, u', hl', hu', he, hpush⟩ | ⟨hne, hpush⟩
+  · rw [hl] at hl'; cases hl'
+    rw [hu] at hu'; cases hu'
+    rw [hpush] at h2
+    simp only [Option.some.injEq, Prod.mk.injEq] at h2
+    exact Or.inl ⟨he, h2.2.symm, h2.1.symm⟩
+  · rw [hpush] at h2
+    cases hq : push r1.inner w with
+    | none => simp [hq] at h2
+    | some p =>
+      simp only [hq, Option.map_some, Option.some.injEq, Prod.mk.injEq] at h2
+      obtain ⟨rfl, rfl⟩ := h2
+      exact Or.inr ⟨hne i u hl hu, rfl, rfl⟩
 end C11
 
 namespace C12
